@@ -548,6 +548,8 @@ def attrs_from_call(b):
         return a, "key is not an RFC 7230 token"
     if not isinstance(value, str) or any(0xD800 <= ord(c) <= 0xDFFF for c in value):
         return a, "value is not a text of scalar values"
+    if len(value) > 1000:
+        return a, "value longer than 1000 characters (cost of the recursive judge operators)"
     path, domain = b.get("path", "/"), b.get("domain")
     if path is not None:
         if not isinstance(path, str) or path == "":
